@@ -125,7 +125,7 @@ theorem compile_zdisc (v : Variant) (cfg : Cfg) (call : Call) (hv : v.compressUn
     (repeat' split) <;> simp_all [zdisc, zNext, zPrev, holds]
 
 theorem alt_zdisc (v : Variant) (a : Alt) (nt : Bool) : zdisc nt (altSteps v a) = true := by
-  cases a; simp only [altSteps, closeSocketProg]; split <;> simp [zdisc, zNext, zPrev, holds]
+  cases a <;> simp only [altSteps, closeSocketProg] <;> (try split) <;> simp [zdisc, zNext, zPrev, holds]
 
 theorem compile_zpos (v : Variant) (cfg : Cfg) (call : Call) : zpos (compile v cfg call) = 0 := by
   cases call <;>
@@ -133,7 +133,7 @@ theorem compile_zpos (v : Variant) (cfg : Cfg) (call : Call) : zpos (compile v c
     (repeat' split) <;> simp [zpos]
 
 theorem alt_zpos (v : Variant) (a : Alt) : zpos (altSteps v a) = 0 := by
-  cases a; simp only [altSteps, closeSocketProg]; split <;> simp [zpos]
+  cases a <;> simp only [altSteps, closeSocketProg] <;> (try split) <;> simp [zpos]
 
 /-- steps that touch neither the compression object nor the wire -/
 def quiet : Step → Bool
